@@ -140,6 +140,13 @@ def C03(tier, seed):
     res.violations += harness_crash_violations(h, "C03")
     res.add_stats(vlib.merge_stats(h["stats"]))
     res.violations += validate_stream(res, "Trace_Parse", out, "c03", "C03", also=("C01", "C02"))
+    # the same stream on a build by the other compiler: whether a source-level read of *afterLast becomes a load is the code generator's
+    # choice (clang hoists the bounds test above the load where gcc does not, and vice versa elsewhere) - the property speaks about the binary
+    exe2 = vlib.build("plain")
+    hg = vlib.run_harness(exe2, ["parse_log", "--table", tbl, "--mode", "c03", "--n", "40000" if tier == "thorough" else "1500", "--seed", str(seed), "--tier", tier], out, "c03gcc")
+    res.violations += harness_crash_violations(hg, "C03")
+    res.add_stats(vlib.merge_stats(hg["stats"]))
+    res.violations += validate_stream(res, "Trace_Parse", out, "c03gcc", "C03", also=("C01", "C02"))
     # guard-page parses at volume: the native walker places every input flush against a PROT_NONE page
     h2 = vlib.run_harness(exe, ["parse_walk", "--table", tbl, "--only", "walks", "--walks", "2000000" if tier == "thorough" else "150000", "--seed", str(seed + 1), "--tier", tier], out, "walk", parts=vlib.NCPU)
     res.violations += [dict(v, prop="C03") for v in h2["violations"] if v.get("prop") == "C03"]
